@@ -27,7 +27,10 @@ def gen_idmanager(repo, out):
     expect(m, "get_id: clean-up fractions changed")
     fracs = [x.strip() for x in m.group(1).split(",")]
     expect(fracs and fracs[-1] == "0" and all(re.fullmatch(r"0(\.\d+)?", f) for f in fracs), f"get_id: fractions {fracs}")
-    expect("if frac == 0:\n            break" in src, "get_id: frac == 0 break")
+    expect(re.search(r"if frac == 0:\n\s+break", src), "get_id: frac == 0 break")
+    n_begin = src.count("BEGIN IMMEDIATE")
+    expect(n_begin in (1, 2), f"get_id: {n_begin} BEGIN IMMEDIATE statements")
+    one_txn = n_begin == 1
     expect("max_ids=min(int(subspace_size * frac), self.max_ids_per_subspace)" in src, "get_id: clean-up target expression changed")
     expect("if self.count(id_space, subspace) >= subspace_size:" in src, "get_id: fullness test changed")
     # statements (normalised text): the model was validated against exactly these
@@ -72,4 +75,5 @@ def gen_idmanager(repo, out):
             items.append(f"Some ({q.numerator}, {q.denominator})")
     t += "Definition cleanup_fracs : list (option (N * N)) := [" + "; ".join(items) + "].\n"
     t += "Definition default_max_ids : Z := 1024%Z.\n"
+    t += f"Definition sampling_in_one_txn : bool := {'true' if one_txn else 'false'}.\n"
     out.add("IdManagerGen.v", t)
